@@ -46,7 +46,9 @@ TRUSTED = [
 ASSUMPTIONS = [
     "doubles are taken as the exact rationals they denote; rounding inside cov = corr*std*std and corr = cov/(std*std) is "
     "absorbed by a 1e-9 relative tolerance; requests at the bound are built so that the double computation is exact",
-    "requested numbers are finite (NaN is accepted by the code: neither nan > 1 nor nan < -1)",
+    "requested numbers are finite (NaN is accepted by the code: neither nan > 1 nor nan < -1); Python and numpy scalar types "
+    "are modelled by their numeric value (np.float32 requests are generated only where single-precision arithmetic is exact "
+    "or the request is rejected whatever the rounding)",
     "reading arrays have at least two readings; quantity ids are distinct (UUIDs in the code, indices in the model)",
     "the std of a repeated measurement is an input of the model (the double the constructor computed; C10 ties it to the readings)",
 ]
@@ -74,10 +76,22 @@ def argval(arg):
     if arg is None:
         return ()
     if arg[0] == "num":
-        return (fx(arg[1]),)
+        return (typed_number(fx(arg[1]), arg[2] if len(arg) > 2 else "float"),)
     if arg[0] == "none":
         return (None,)
     return (JUNK,)
+
+
+def typed_number(v, tag):
+    """the requested number as a Python float / int / bool or a numpy scalar (all are numbers.Real)"""
+    import numpy as np
+    if tag == "float":
+        return v
+    if tag == "int":
+        return int(v)
+    if tag == "bool":
+        return bool(v)
+    return {"float64": np.float64, "float32": np.float32, "int64": np.int64, "int32": np.int32}[tag](v)
 
 
 def run_op(q, objs, op):
@@ -270,6 +284,46 @@ def gen_number(rng, m, setter, a, b, mode):
     return c
 
 
+def f32_exact(x):
+    """the rational x is a float32 number"""
+    import numpy as np
+    f = float(x)
+    return Fraction(f) == Fraction(x) and float(np.float32(f)) == f
+
+
+def number_arg(rng, m, setter, a, b, v):
+    """["num", hex, type tag]: the number v as a Python float / int / bool or as a numpy scalar.
+    np.float32 makes the arithmetic of the request single precision, so it is only used when the request is
+    rejected whatever the rounding or when every intermediate result is a float32 number."""
+    u = rng.random()
+    integral = float(v).is_integer() and abs(v) < 2 ** 31
+    tag = "float"
+    if u < 0.5:
+        tag = "float"
+    elif u < 0.72:
+        tag = "float64"
+    elif u < 0.84:
+        tag = rng.choice(["int64", "int64", "int32", "int", "bool" if v in (0.0, 1.0) else "int"]) if integral else "float64"
+    else:
+        tag = "float32"
+    if tag == "float32":
+        live = isinstance(a, int) and isinstance(b, int) and m.measured(a) and m.measured(b) and m.std(a) != 0 and m.std(b) != 0
+        ok = f32_exact(Fraction(v))
+        if ok and live:
+            sa, sb = m.std(a), m.std(b)
+            pr = Fraction(sa) * Fraction(sb)
+            if not sl.exact_product(sa, sb) or not f32_exact(pr):
+                ok = False
+            elif setter == "set_corr":
+                ok = abs(v) > 1 or f32_exact(Fraction(v) * pr)
+            else:
+                ratio = Fraction(v) / pr
+                ok = abs(ratio) - 1 > Fraction(1, 10 ** 5) or f32_exact(ratio)
+        if not ok:
+            tag = "float64"
+    return ["num", hx(v), tag]
+
+
 def pick_pair(rng, m, want_good=True):
     good = m.good()
     if want_good and len(good) >= 2:
@@ -316,11 +370,11 @@ def gen_op(rng, m):
         if both_rep and u < 0.55:
             return [setter, form, a, b, None if rng.random() < 0.8 else ["none"]]
         mode = "bound" if u > 0.75 else "in"
-        return [setter, form, a, b, ["num", hx(gen_number(rng, m, setter, a, b, mode))]]
+        return [setter, form, a, b, number_arg(rng, m, setter, a, b, gen_number(rng, m, setter, a, b, mode))]
     u = rng.random()                               # requests meant to be rejected
     if u < 0.4:
         a, b = pick_pair(rng, m)
-        return [setter, form, a, b, ["num", hx(gen_number(rng, m, setter, a, b, "out"))]]
+        return [setter, form, a, b, number_arg(rng, m, setter, a, b, gen_number(rng, m, setter, a, b, "out"))]
     if u < 0.6:                                     # a zero-uncertainty, calculated or constant operand
         a, b = rng.randrange(m.n), rng.randrange(m.n)
         bad = [i for i in range(m.n) if not m.measured(i) or m.std(i) == 0]
@@ -330,14 +384,16 @@ def gen_op(rng, m):
             else:
                 b = rng.choice(bad)
         sa, sb = m.std(a), m.std(b)
-        return [setter, form, a, b, ["num", hx(0.25 * (sa * sb if setter == "set_cov" and sa * sb != 0 else 1.0))]]
+        v = rng.choice([0.0, 0.0, 0.0, -0.0, 0.25, -0.25, 1.0, -1.0, 2.0, 0.0078125,
+                        0.25 * (sa * sb if setter == "set_cov" and sa * sb != 0 else 1.0)])
+        return [setter, form, a, b, number_arg(rng, m, setter, a, b, v)]
     a, b = pick_pair(rng, m, rng.random() < 0.7)
     if u < 0.72:
         if rng.random() < 0.5:
             b = "notq"
         else:
             a = "notq"
-        return [setter, form, a, b, ["num", hx(0.25)]]
+        return [setter, form, a, b, number_arg(rng, m, setter, a, b, rng.choice([0.25, 0.0, 1.0]))]
     if u < 0.86:
         return [setter, form, a, b, rng.choice([None, ["none"]])]
     return [setter, form, a, b, ["junk"]]
@@ -363,6 +419,7 @@ def exhaustive_cases(depth):
         ["set_cov", "meth", 0, 1, ["num", hx(0.125)]], ["set_cov", "fn", 0, 1, ["num", hx(-0.25)]],
         ["set_corr", "fn", 0, 0, ["num", hx(0.5)]], ["reset"], ["set_err", 0, hx(0.0)], ["set_err", 0, hx(2.0)],
         ["set_corr", "fn", 0, 1, None],
+        ["set_cov", "meth", 1, 0, ["num", hx(0.0), "float64"]], ["set_corr", "fn", 0, 1, ["num", hx(0.0), "int64"]],
     ]
     out = []
 
@@ -485,17 +542,24 @@ def correspondence(ctx):
         if i < n_random:
             for op, r, _ in hist:
                 res.count(classify(op, r))
+                if op[0].startswith("set_c") and op[4] is not None and op[4][0] == "num":
+                    res.count("number-type:" + (op[4][2] if len(op[4]) > 2 else "float"))
+                    if isinstance(op[2], int) and isinstance(op[3], int) and len(op[4]) > 2 and op[4][2] != "float" and \
+                            any(d[0] in ("single", "repeated") and fx(d[2] if d[0] == "repeated" else d[1]) == 0
+                                for d in (desc[op[2]], desc[op[3]])):
+                        res.count("numpy-or-int number with a zero-uncertainty operand")
             for d in desc:
                 res.count("quantity:" + d[0] + (":zero-std" if (d[0] == "repeated" and fx(d[2]) == 0) or
                                                  (d[0] == "single" and fx(d[1]) == 0) else ""))
         if nontrivial(hist):
             res.nontrivial.add(core.canonical_key("h", case))
     res.exhaustive = True
-    res.extra["exhaustive_scope"] = ("all call histories of length <= {} over two single measurements and an alphabet of 11 "
+    res.extra["exhaustive_scope"] = ("all call histories of length <= {} over two single measurements and an alphabet of 13 "
                                      "calls ({} histories)".format(ctx.n(2, 3), len(cases) - n_random))
     res.extra["corpus_cases"] = n_corpus
     res.rule = ("random call histories (6-29 calls; set_correlation / set_covariance in function and method form, both argument "
-                "orders, explicit / omitted / non-numeric number, getters, reset_correlations, .error and .value writes) over 2-5 "
+                "orders, explicit / omitted / non-numeric number, the number as Python float / int / bool or numpy float64 / float32 / "
+                "int64 / int32 scalar of either sign and zero, getters, reset_correlations, .error and .value writes) over 2-5 "
                 "quantities (single with / without error, repeated plain / collinear / with uncertainties / zero spread, calculated, "
                 "constant); ~70% of set requests aimed at acceptance, boundary requests exact in doubles, one ulp inside / outside; "
                 "after every call the outcome and the full matrix of q.get_correlation / q.get_covariance are compared with "
